@@ -1,3 +1,4 @@
+import AvroModel.Container
 import AvroModel.Lemmas.WriteOk
 import AvroModel.Props.C09
 import AvroModel.Lemmas.DecodeOk
@@ -89,5 +90,72 @@ theorem container_frames (cfg : EncCfg) (ops : List EncOp) :
     ∃ s' w', encRun cfg {} ops = (s', w', none) ∧
       w'.accepted = cfg.header ++ (((specPart cfg.blockSize ops []).1).map (frame cfg)).flatten :=
   let ⟨s', w', h1, h2, _, _⟩ := C09.refines cfg ops; ⟨s', w', h1, h2⟩
+
+/-! ### The container, as seen by the specification's reader
+
+`Avro.Spec.readBlocks` (Container.lean) is the block reader written from the Avro specification; it shares
+nothing with the library's reader model (`File.lean`). It accepts exactly: count, byte size, payload of that
+size, 16-byte marker equal to the header's. -/
+
+theorem writeVarint_ne_nil (v : Int) : writeVarint v ≠ [] := putUvarint_ne_nil _
+
+/-- the frames the encoder writes for any list of blocks are read by the specification's block reader as
+those blocks: the declared record count is the number of records, the declared byte size is exact (the
+payload is cut out precisely), every marker matches, nothing is left over -/
+theorem spec_reader_reads_frames (cfg : EncCfg) (hs : cfg.sync.length = 16) :
+    ∀ (part : List (List Bytes)),
+      (∀ blk ∈ part, inRange 64 (blk.length : Int) ∧ inRange 64 ((cfg.compress blk.flatten).length : Int)) →
+      Spec.readBlocks cfg.sync (part.length + 1) ((part.map (frame cfg)).flatten) =
+        some (part.map fun blk => { count := (blk.length : Int), payload := cfg.compress blk.flatten })
+  | [], _ => by simp [Spec.readBlocks]
+  | blk :: rest, h => by
+    have hb := h blk (by simp)
+    have ih := spec_reader_reads_frames cfg hs rest (fun b hb => h b (by simp [hb]))
+    have hne : (List.map (frame cfg) (blk :: rest)).flatten ≠ [] := by
+      simp only [List.map_cons, List.flatten_cons, frame, blockChunks]
+      intro hnil
+      have : writeVarint (blk.length : Int) = [] := by
+        have := congrArg List.length hnil
+        simp only [List.flatten_cons, List.length_append, List.length_nil] at this
+        exact List.eq_nil_of_length_eq_zero (by omega)
+      exact writeVarint_ne_nil _ this
+    have hshape : (List.map (frame cfg) (blk :: rest)).flatten =
+        writeVarint (blk.length : Int) ++ (writeVarint ((cfg.compress blk.flatten).length : Int) ++
+          (cfg.compress blk.flatten ++ (cfg.sync ++ (List.map (frame cfg) rest).flatten))) := by
+      simp [frame, blockChunks, List.append_assoc]
+    rw [List.length_cons, Spec.readBlocks]
+    rw [if_neg hne, hshape, readVarint_writeVarint _ hb.1]
+    simp only []
+    rw [readVarint_writeVarint _ hb.2]
+    simp only []
+    have hnn : ¬ (((cfg.compress blk.flatten).length : Int) < 0 ∨ ((blk.length : Nat) : Int) < 0) := by omega
+    rw [if_neg hnn, Int.toNat_natCast, takeN_append']
+    simp only []
+    rw [← hs, takeN_append']
+    simp only [ne_eq, not_true_eq_false, if_false]
+    rw [ih]
+    simp
+
+/-- **C02, container clause.** For every Encode/Flush history the bytes after the header are read by the
+specification's block reader as the reference partition of the records: exact counts, exact sizes,
+matching markers, no bytes left over. -/
+theorem container_valid (cfg : EncCfg) (hs : cfg.sync.length = 16) (ops : List EncOp)
+    (hsz : ∀ blk ∈ (specPart cfg.blockSize ops []).1, inRange 64 (blk.length : Int) ∧ inRange 64 ((cfg.compress blk.flatten).length : Int)) :
+    ∃ s' w' body, encRun cfg {} ops = (s', w', none) ∧ w'.accepted = cfg.header ++ body ∧
+      Spec.readBlocks cfg.sync ((specPart cfg.blockSize ops []).1.length + 1) body =
+        some ((specPart cfg.blockSize ops []).1.map fun blk => { count := (blk.length : Int), payload := cfg.compress blk.flatten }) := by
+  obtain ⟨s', w', h1, h2⟩ := container_frames cfg ops
+  exact ⟨s', w', _, h1, h2, spec_reader_reads_frames cfg hs _ hsz⟩
+
+/-- non-vacuity: a concrete history (two records, a flush, one record, block size 2), identity compression -/
+def exCfg2 : EncCfg := { blockSize := 2, compress := id, sync := List.replicate 16 0xAA, header := [0x4F] }
+def exOps2 : List EncOp := [.encode [1], .encode [2], .flush, .encode [3, 4, 5], .flush]
+
+example : (Spec.readBlocks exCfg2.sync 4 ((encRun exCfg2 {} exOps2).2.1.accepted.drop 1)).map
+      (fun bl => bl.map fun b => (b.count, b.payload)) =
+    some [(2, [1, 2]), (1, [3, 4, 5])] := by decide +kernel
+
+example : ∀ blk ∈ (specPart exCfg2.blockSize exOps2 []).1,
+    inRange 64 (blk.length : Int) ∧ inRange 64 ((exCfg2.compress blk.flatten).length : Int) := by decide +kernel
 
 end Avro.C02
